@@ -1948,6 +1948,7 @@ class Interp:
         n = len(self.st.pc)
         pend0, dpos0, dec0 = len(self.pending), self.dpos, list(self.decisions)
         heap0 = dict(self.st.heap)
+        trace0 = len(self.st.trace)
         self.st.pc.append(cond)
         ok = True
         v = None
@@ -1955,6 +1956,8 @@ class Interp:
             v = thunk()
         except (PyExc, Unsupported, PathEnd):
             ok = False
+        if ok and len(self.st.trace) != trace0:
+            ok = False          # the expression emits events (calls with effects): it must not be evaluated on the path where cond is false
         if ok and (len(self.pending) != pend0 or any(self.st.heap.get(k) is not heap0.get(k) for k in set(heap0) | set(self.st.heap) if k in heap0)):
             ok = False
         if not ok:
